@@ -10,6 +10,7 @@ PROP = dict(
                        "Comdex.C20.table_spot_liquidity", "Comdex.C20.table_spot_market",
                        "Comdex.C20.store_coverage_full", "Comdex.C20.import_faithful_full", "Comdex.C20.import_total_full", "Comdex.C20.import_accepts_full", "Comdex.C20.validate_keys_match_store_keys", "Comdex.C20.validate_keys_pinned", "Comdex.C20.derived_sourced_full",
                        "Comdex.C20.counters_exact_full", "Comdex.C20.fields_used_full",
+                       "Comdex.C20.export_helpers_copy_ids_faithfully", "Comdex.C20.export_helpers_copy_fields_by_name", "Comdex.C20.copies_pinned",
                        "Comdex.C20.knownGaps_are_gaps", "Comdex.C20.suspectedGaps_are_gaps", "Comdex.C20.allowList_are_gaps",
                        "Comdex.C20.benign_counters", "Comdex.C20.counter_counterexample", "Comdex.C20.store_counterexample"],
     harness_tests=["TestC20"],
